@@ -16,15 +16,26 @@ source with container kinds renamed (plain-Python transcription `py_rename`, `py
 finalisation does not fail - except known finding K1 (TypeError unhashable raised inside
 convert_output_data while a set / dict key is built from a container element).  The set-like dict views
 (keys() / items(), of a builtin dict or a FrozenDict) are finalised into LISTS in iteration order under
-every option combination (theorem views_finalise); a failure there is a violation, not K1."""
+every option combination (theorem views_finalise); a failure there is a violation, not K1.
+ H. host histories (model: Model/HostHistory.lean, theorems Props/C10Hist.lean): one document object that the host changes
+    in place (append, set key, nested, a sub-document replaced by an equal copy / by a different one, delete) or replaces,
+    `$` evaluated on it with the SAME Statement object per engine, with fresh parses and through the provenances of
+    harness/paths.py, under all option sets; contexts bound once (`yaql.create_context(data=doc)`,
+    `ctx['$'] = convert_input_data(doc)`) and frozen copies kept by the host, evaluated later under several option sets;
+    every result is changed by the host afterwards.  Oracle: each evaluation returns the canonical form of the document AS
+    IT IS NOW - through a binding: as it was at bind time (doc-silent, modelled as implemented: a result that shows the
+    current document instead is reported as a model mismatch, not as a violation)."""
 import collections.abc
+import copy
 import itertools
 import json
 import sys
+import time
 import traceback
 import zlib
 
 import common
+import paths
 import values
 from values import Host
 
@@ -34,13 +45,13 @@ from yaql.language import utils as yutils
 from yaql.standard_library import queries as yqueries
 
 ID = 'C10'
-LEAN_MODULES = ['Yaql.Props.C10']
+LEAN_MODULES = ['Yaql.Props.C10', 'Yaql.Props.C10Hist']
 REQUIRED_THEOREMS = ['Yaql.Props.C10.' + n for n in (
     'convOut_spec', 'plain', 'plain_root', 'plain_no_frozen_dict', 'succeeds_iff', 'succeeds_iff_lim',
     'outHashable_eq', 'fails_only_unhashable', 'total_partial', 'roundtrip', 'roundtrip_ext', 'roundtrip_only',
     'roundtrip_json', 'roundtrip_default', 'convIn_wf', 'current_fails', 'current_fails_full',
     'current_fails_unsatisfiable', 'k1_other_options', 'k1_roundtrip', 'views_finalise', 'views_finalise_of_dict',
-    'views_documented')]
+    'views_documented', 'history_spec', 'roundtrip_history', 'roundtrip_history_default', 'memo_breaks_roundtrip')]
 TRUSTED = ['Python hashing modelled by the predicate `hashable` (list/dict/set/dict_keys/dict_items unhashable; '
            'tuples and FrozenDicts hash their content; iterators, values views and ordering objects hash by identity)',
            'set / dict de-duplication is not modelled: on every successful path the conversion of hash-position '
@@ -48,7 +59,11 @@ TRUSTED = ['Python hashing modelled by the predicate `hashable` (list/dict/set/d
 ASSUMPTIONS = ['host leaves are None/bool/int/float/str/opaque hashable objects',
                'lazy sequences are finite and their iteration raises nothing (errors raised by lambdas while the '
                'finaliser iterates are evaluation errors, not finalisation errors)',
-               'a host frozenset is a generic iterable for convert_input_data (doc-silent, modelled as implemented)']
+               'a host frozenset is a generic iterable for convert_input_data (doc-silent, modelled as implemented)',
+               'host histories: in-place mutation is a new content of the same document cell; `Statement`, `YaqlEngine` and '
+               'contexts hold no conversion state (the model has none to hold; Memo is the contrasting design); '
+               'yaql.create_context(data=doc) converts at bind time - a context bound earlier shows the OLD document '
+               '(doc-silent, modelled as implemented)']
 
 SETLIKE = ('set', 'fset', 'kview', 'iview')        # collections.abc.Set
 VIEWS = ('kview', 'iview')                         # collections.abc.KeysView / ItemsView: finalised into lists
@@ -735,6 +750,302 @@ def run_reuse(real, res, rng, tier, hist):
                             break
 
 
+# ------------------------------------------------------------------ H: the round trip along a host history
+
+H_SCALARS = [None, True, 0, 2, 7, -3, 1.5, '', 'a', 'bc', 'é', 10 ** 20]
+H_KEYS = ['a', 'b', 'c', 'k', 'id', 2, 5]
+H_SET_ITEMS = ['x', 'y', 3, 4, 'zz']
+H_PATHS = ('plain', 'reuse', 'copy', 'percall', 'ctxdata', 'iface')
+
+
+def h_doc(rng, depth, top=False, ext=True):
+    """a JSON-like document (lists, dicts with scalar keys, scalars; `ext`: now and then a tuple or a set of scalars);
+    `top`: a non-empty list or dict, so that the host can change it in place"""
+    r = rng.random()
+    if not top and (depth <= 0 or r < 0.3):
+        return rng.choice(H_SCALARS)
+    if ext and not top and r < 0.38:
+        return set(rng.sample(H_SET_ITEMS, rng.randrange(0, 3)))
+    if ext and not top and r < 0.46:
+        return tuple(h_doc(rng, depth - 1, ext=ext) for _ in range(rng.randrange(0, 3)))
+    n = rng.randrange(1 if top else 0, 4)
+    if r < 0.73:
+        return [h_doc(rng, depth - 1, ext=ext) for _ in range(n)]
+    return {k: h_doc(rng, depth - 1, ext=ext) for k in rng.sample(H_KEYS, n)}
+
+
+def h_nodes(v, path='doc', out=None):
+    """(python path, container) of every list / dict of the document, outermost first"""
+    out = [] if out is None else out
+    if type(v) is list:
+        out.append((path, v))
+        for i, x in enumerate(v):
+            h_nodes(x, '%s[%d]' % (path, i), out)
+    elif type(v) is dict:
+        out.append((path, v))
+        for k, x in v.items():
+            h_nodes(x, '%s[%r]' % (path, k), out)
+    return out
+
+
+def h_mutate(doc, how, a, b, v):
+    """one in-place change by the host (`a`, `b`: which container / which slot, taken modulo what there is; `v`: a new
+    value); returns the line of Python it amounts to"""
+    nodes = h_nodes(doc)
+    if how == 'nested':
+        path, node = nodes[len(nodes) // 2:][a % len(nodes[len(nodes) // 2:])]
+        how = 'append'
+    else:
+        path, node = nodes[a % len(nodes)]
+    slots = list(range(len(node))) if type(node) is list else list(node)
+    if how in ('equal-copy', 'different', 'delete') and not slots:
+        how = 'append'
+    if how == 'equal-copy':
+        sub = [k for k in slots if type(node[k]) in (list, dict, set, tuple)] or slots
+        k = sub[b % len(sub)]
+        node[k] = copy.deepcopy(node[k])
+        return '%s[%r] = copy.deepcopy(%s[%r])' % (path, k, path, k)
+    if how == 'different':
+        k = slots[b % len(slots)]
+        node[k] = v
+        return '%s[%r] = %r' % (path, k, v)
+    if how == 'delete':
+        k = slots[b % len(slots)]
+        del node[k]
+        return 'del %s[%r]' % (path, k)
+    if type(node) is list:
+        if how == 'setkey' and slots:
+            k = slots[b % len(slots)]
+            node[k] = v
+            return '%s[%d] = %r' % (path, k, v)
+        node.append(v)
+        return '%s.append(%r)' % (path, v)
+    k = H_KEYS[b % len(H_KEYS)]
+    node[k] = v
+    return '%s[%r] = %r' % (path, k, v)
+
+
+def h_scramble(r, depth=0):
+    """the host changes a result it was handed (every mutable container of it)"""
+    if depth > 30:
+        return
+    if type(r) is list:
+        for x in r:
+            h_scramble(x, depth + 1)
+        del r[:]
+        r.append('scrambled')
+    elif type(r) is dict:
+        for x in r.values():
+            h_scramble(x, depth + 1)
+        r.clear()
+        r['scrambled'] = True
+    elif type(r) is set:
+        r.clear()
+        r.add('scrambled')
+    elif type(r) is tuple:
+        for x in r:
+            h_scramble(x, depth + 1)
+
+
+def gen_history(rng, n):
+    """a replayable host history: the initial document and operation descriptors (values as Python literals)"""
+    ops = []
+    for _ in range(n):
+        r = rng.random()
+        t2l, s2l = rng.choice(ALL_OPTS)
+        if r < 0.28:
+            how = rng.choice(['append', 'setkey', 'nested', 'equal-copy', 'different', 'delete', 'grow'])
+            ops.append(['mutate', how, rng.randrange(1000), rng.randrange(1000), repr(h_doc(rng, 2 if how in ('grow', 'different') else 1))])
+        elif r < 0.33:
+            ops.append(['replace', 'copy'] if rng.random() < 0.5 else ['replace', 'new', repr(h_doc(rng, 3, top=True))])
+        elif r < 0.45:
+            ops.append(['bind', rng.choice(['create_context', 'ctxset', 'frozen', 'ctxset', 'frozen'])])
+        elif r < 0.67:
+            ops.append(['evalBound', rng.randrange(1000), t2l, s2l, rng.random() < 0.7, rng.random() < 0.5, rng.random() < 0.5])
+        else:
+            how = rng.choice(['same', 'same', 'same', 'fresh', 'paths', 'paths'])
+            if how == 'paths':
+                how = 'paths-' + rng.choice(H_PATHS)
+            ops.append(['evaluate', t2l, s2l, rng.random() < 0.85, how])
+    return dict(mode='H', d0=repr(h_doc(rng, 3, top=True)), ops=ops)
+
+
+def run_history_case(real, drv, res, case, hist):
+    """One host history: one document object that the host changes in place or replaces; `$` evaluated on it with the SAME
+    Statement object per engine, with freshly parsed ones and through the provenances of harness/paths.py, under all
+    option sets; contexts bound once (`yaql.create_context(data=doc)`, `ctx['$'] = convert_input_data(doc)`) or a frozen
+    copy kept by the host, evaluated later under several option sets.  Oracle: every evaluation returns the canonical
+    form of the document AS IT IS NOW (through a binding: as it was when bound), in plain types per the evaluating
+    engine's options; every result is changed by the host afterwards, which must not show anywhere.  Returns True when
+    nothing failed."""
+    doc = eval(case['d0'], {'inf': float('inf')})       # noqa: S307 - our own literals
+    lines = ['doc = %r' % (doc,)]
+    d0 = penc(doc)
+    ops, evals = [], []         # ops: for the model; evals: (index into ops, raw_j, out, t2l, s2l, what)
+    stmts, pcache = {}, {}
+    bound = []                  # (kind, object, encoding of the document at bind time)
+    for step, op in enumerate(case['ops']):
+        o = op[0]
+        if o == 'mutate':
+            lines.append(h_mutate(doc, op[1], op[2], op[3], eval(op[4], {'inf': float('inf')})))     # noqa: S307
+            ops.append({'o': 'mutate', 'v': penc(doc)})
+        elif o == 'replace':
+            if op[1] == 'copy':
+                doc = copy.deepcopy(doc)
+                lines.append('doc = copy.deepcopy(doc)')
+            else:
+                doc = eval(op[2], {'inf': float('inf')})     # noqa: S307
+                lines.append('doc = %r' % (doc,))
+            ops.append({'o': 'replace', 'v': penc(doc)})
+        elif o == 'bind':
+            kind = op[1]
+            if kind == 'create_context' and sum(1 for b in bound if b[0] == kind) >= 2:
+                kind = 'ctxset'         # building a library context costs ~10 ms
+            if kind == 'create_context':
+                obj = yaql.create_context(data=doc)
+                lines.append('b%d = yaql.create_context(data=doc)' % len(bound))
+            elif kind == 'ctxset':
+                obj = real.root.create_child_context()
+                obj['$'] = yutils.convert_input_data(doc)
+                lines.append("b%d = root.create_child_context(); b%d['$'] = utils.convert_input_data(doc)" % (len(bound), len(bound)))
+            else:
+                obj = yutils.convert_input_data(doc)
+                lines.append('b%d = utils.convert_input_data(doc)' % len(bound))
+            bound.append((kind, obj, penc(doc)))
+            ops.append({'o': 'bind'})
+            o = 'bind-' + kind
+        elif o == 'evalBound':
+            if not bound:
+                continue
+            i = op[1] % len(bound)
+            t2l, s2l, ci, same, child = op[2:7]
+            kind, obj, enc = bound[i]
+            ci = ci and kind != 'frozen'        # a frozen copy goes through engines without input conversion
+            eng, _ = real.engine(t2l, s2l, None, ci)
+            st = stmts.setdefault((t2l, s2l, ci), eng('$')) if same else eng('$')
+            tag = 'engine(t2l=%s, s2l=%s, convertInputData=%s)' % (t2l, s2l, ci)
+            try:
+                if kind == 'frozen':
+                    lines.append("%s('$').evaluate(data=b%d)%s" % (tag, i, '  # the statement used before' if same else ''))
+                    out = ('ok', st.evaluate(data=obj, context=real.root.create_child_context()))
+                else:
+                    lines.append("%s('$').evaluate(context=b%d%s)%s" % (tag, i, '.create_child_context()' if child else '',
+                                                                      '  # the statement used before' if same else ''))
+                    out = ('ok', st.evaluate(context=obj.create_child_context() if child else obj))
+            except Exception as e:      # noqa
+                out = ('exc',) + classify_exc(e, sys.exc_info()[2])
+            ops.append({'o': 'evalBound', 'i': i, 't2l': t2l, 's2l': s2l})
+            evals.append((len(ops) - 1, py_in(enc), out, t2l, s2l, 'the document as it was when b%d was bound' % i))
+            o = 'evalBound-' + kind
+        else:
+            t2l, s2l, ci, how = op[1:5]
+            eng, _ = real.engine(t2l, s2l, None, ci)
+            tag = 'engine(t2l=%s, s2l=%s, convertInputData=%s)' % (t2l, s2l, ci)
+            try:
+                if how == 'same':
+                    st = stmts.setdefault((t2l, s2l, ci), eng('$'))
+                    lines.append("%s: the one statement `$` of this engine .evaluate(data=doc)" % tag)
+                    out = ('ok', st.evaluate(data=doc, context=real.root.create_child_context()))
+                elif how == 'fresh':
+                    lines.append("%s('$').evaluate(data=doc)" % tag)
+                    out = ('ok', eng('$').evaluate(data=doc, context=real.root.create_child_context()))
+                else:
+                    lines.append("%s: `$` on doc through host path %r (harness/paths.py)" % (tag, how[6:]))
+                    out = ('ok', paths.evaluate(eng, real.root, '$', doc, allow=(how[6:],), statement_cache=pcache))
+            except Exception as e:      # noqa
+                out = ('exc',) + classify_exc(e, sys.exc_info()[2])
+            ops.append({'o': 'evaluate', 'ci': ci, 't2l': t2l, 's2l': s2l})
+            src = penc(doc)
+            evals.append((len(ops) - 1, py_in(src) if ci else src, out, t2l, s2l, 'the document as it is now'))
+            o = 'evaluate-' + how
+        hist['H:' + o] = hist.get('H:' + o, 0) + 1
+        if evals and evals[-1][0] == len(ops) - 1 and o.startswith('eval'):
+            # judged now (the result is about to be changed by the host)
+            idx, raw_j, out, t2l, s2l, what = evals[-1]
+            r0 = common.Result()
+            short = dict(case, ops=case['ops'][:step + 1])
+            ok = judge(r0, short, raw_j, out, None, t2l, s2l, None, hist)
+            for f in r0.failures:
+                if f.key == 'unhashable-in-hash-position':
+                    res.failures.append(f)
+                    continue
+                if f.key == 'wrong-result' and o.startswith('evalBound') and out[0] == 'ok':
+                    now = penc(doc)
+                    try:
+                        live = matches(py_rename_marked(py_in(now), t2l, s2l), penc(out[1]))
+                    except Unknown:
+                        live = False
+                    if live:
+                        # plain data, equal to the document as it is NOW: the property text does not say which of the two a
+                        # binding made earlier shows (doc-silent; the code and the model convert at bind time)
+                        res.fail('mismatch', 'model-bind-time', 'host history: an evaluation through a binding made earlier returns the '
+                                 'document as it is now, the model (as the code did) the document as it was at bind time\n    %s' %
+                                 '\n    '.join(lines), short)
+                        continue
+                res.fail('oracle', 'roundtrip-history' if f.key == 'wrong-result' else f.key,
+                         'host history, last line: %s (expected: %s in canonical types)\n    %s' % (f.what, what, '\n    '.join(lines)), short)
+            if not ok:
+                return False
+            if out[0] == 'ok':
+                evals[-1] = (idx, raw_j, ('ok', penc(out[1])), t2l, s2l, what)
+                h_scramble(out[1])
+                lines.append('<the host changes the result it got>')
+    if drv is not None and ops:
+        model = drv.ask({'p': 'C10', 'hist': [{'d0': d0, 'ops': ops}]})['res'][0]
+        for idx, raw_j, out, t2l, s2l, what in evals:
+            m = model[idx]
+            res.traces += 1
+            if out[0] == 'ok':
+                # (both sides against the expectation with set-derived lists unordered: a frozen copy of a set need not
+                # iterate in the order of the set it was made from)
+                if not m or 'ok' not in m or not matches(py_rename_marked(raw_j, t2l, s2l), m['ok']) \
+                        or not matches(py_rename_marked(raw_j, t2l, s2l), out[1]):
+                    res.fail('mismatch', 'model-history', 'host history: operation %d returns %s, the model %s\n    %s' % (
+                        idx, show(out[1]), json.dumps(m)[:300], '\n    '.join(lines)), case)
+                    return False
+            elif not m or 'err' not in m:
+                res.fail('mismatch', 'model-history', 'host history: operation %d fails (%s), the model gives %s\n    %s' % (
+                    idx, out[2], json.dumps(m)[:300], '\n    '.join(lines)), case)
+                return False
+    return True
+
+
+def shrink_history(real, drv, case, key):
+    """drop operations (and shrink nothing else) while a failure with the same key remains"""
+    def fails(c):
+        r = common.Result()
+        try:
+            return (not run_history_case(real, drv, r, c, {})) and any(f.key == key for f in r.failures)
+        except Exception:       # noqa
+            return False
+    cur = dict(case)
+    progress = True
+    while progress:
+        progress = False
+        for i in range(len(cur['ops']) - 1, -1, -1):
+            c = dict(cur, ops=cur['ops'][:i] + cur['ops'][i + 1:])
+            if fails(c):
+                cur, progress = c, True
+    return cur
+
+
+def run_history(real, drv, res, rng, tier, hist):
+    n = 220 if tier == 'quick' else 3000
+    for i in range(n):
+        case = gen_history(rng, rng.randrange(4, 16))
+        res.case('H' + common.digest(case), True, sample=case if i == 0 else None)
+        if not run_history_case(real, drv, res, case, hist):
+            f = res.failures[-1]
+            if f.key not in ('unhashable-in-hash-position',):
+                small = shrink_history(real, drv, f.replay, f.key)
+                r2 = common.Result()
+                run_history_case(real, drv, r2, small, {})
+                g = next((x for x in r2.failures if x.key == f.key), None)
+                if g:
+                    res.failures[-1] = g
+            return
+
+
 # ------------------------------------------------------------------ E: YaqlInterface applies the same conversion
 
 IFACE_CALLS = [
@@ -803,11 +1114,15 @@ def run(env, res):
                 'x 4 option combinations x iterator limits; B: random host documents through `$`; C: random compositions '
                 'of a pool of %d expressions and %d templates x 4 option combinations. distinct = distinct value / '
                 'expression; non-trivial = the value holds a container inside a container (A, B) or the expression '
-                'evaluates (C)' % (len(ATOMS), len(TEMPLATES)))
+                'evaluates (C); H: random host histories of 4-15 operations (mutate in place / replace / evaluate `$` '
+                'with the same, a fresh or a derived statement / bind a context or a frozen copy / evaluate through a '
+                'binding) over a random JSON-like document, distinct = distinct history' % (len(ATOMS), len(TEMPLATES)))
     if env['replay']:
         rp = json.load(open(env['replay']))
         if rp['case'].get('mode') == 'D':
             run_reuse(real, res, rng, 'thorough', hist)
+        elif rp['case'].get('mode') == 'H':
+            run_history_case(real, drv, res, rp['case'], hist)
         elif rp['case'].get('mode') == 'E':
             run_interface(real, drv, res, hist)
         else:
@@ -864,11 +1179,15 @@ def run(env, res):
         after(case, 'C', r is not None, e if i < 2 else None)
     run_reuse(real, res, rng, tier, hist)
     run_interface(real, drv, res, hist)
+    t0 = time.time()
+    run_history(real, drv, res, common.make_rng(env['seed'], 'C10H'), tier, hist)
+    hist['seconds-history'] = round(time.time() - t0, 1)
+    hist['host_paths'] = dict(paths.HIST)
     # shrink the first failure of every non-known key (values only)
     known = {k['key'] for k in common.known_findings() if k['property'] == ID and k.get('status') == 'known'}
     seen = set()
     for f in list(res.failures):
-        if f.key in known or f.key in seen or f.replay.get('mode') in ('C', 'D', 'E'):
+        if f.key in known or f.key in seen or f.replay.get('mode') in ('C', 'D', 'E', 'H'):
             continue
         seen.add(f.key)
         try:
@@ -899,7 +1218,14 @@ LEVEL_TEXT = ('Lean 4 theorems over a code-shaped model of utils.convert_input_d
               'values are finalised become the list of keys / of [key, value] pairs, all options). The full claim "finalisation succeeds for every value under '
               'every option combination" is false of the code and unsatisfiable: current_fails / current_fails_full / '
               'current_fails_unsatisfiable (known finding K1). Tie: the compiled model and the real code are run on the '
-              'same random values, documents and expression results under the 4 option combinations and several limits.')
+              'same random values, documents and expression results under the 4 option combinations and several limits.  '
+              'Under host reuse (Model/HostHistory.lean: one document object mutated in place / replaced, `$` evaluated by '
+              'engines of any options, contexts bound by create_context(data=doc)): history_spec - for every history every '
+              'evaluation returns the finalised conversion of the document as it is at that time, every evaluation through a '
+              'bound context that of the document at bind time, under the options of the evaluating engine -, '
+              'roundtrip_history (= canon o of that document), memo_breaks_roundtrip (a statement remembering its last input '
+              'does not satisfy it); the harness runs generated host histories on the real code (same Statement object, fresh '
+              'parses, engine.copy / per-call options / YaqlInterface paths) against that model.')
 LEVEL_NOTE = ('trusted: Lean kernel; hand-written model Yaql/Model/Convert.lean; Python hashing as the predicate '
               '`hashable`; set/dict de-duplication not modelled (injective on success paths); the differential harness '
               'and its plain-Python transcription of the renaming. Known finding K1 (unhashable-in-hash-position) is '
